@@ -621,7 +621,7 @@ pub fn table() -> Vec<Spec> {
         s.canon_params = vec!["addr"];
         s.param_tys = vec![("addr", Ty::Addr)];
         s.type_params = vec!["B", "T0"];
-        s.skip_lets = vec!["result"];
+        s.skip_as = vec![("T :: zeroed ()", "result")];
         s.extra = vec![ext("result . as_mut_slice ()", "obj_bytes", "B", Ty::Unknown), ext("result", "result", "T0", Ty::Unknown)];
         s.fns = vec![ofn("read_slice", "read_slice", "B -> N -> rres unit", Ty::Res(Box::new(Ty::Unit)))];
         t.push(s);
@@ -858,7 +858,9 @@ pub fn table() -> Vec<Spec> {
             s.canon_params = vec!["raw_fd", "buf"];
             s.drop_params = vec!["raw_fd", "buf"];
             s.extra = vec![buf_len(), ex("std :: io :: Error :: last_os_error ()", "last_os_error", Ty::Int(64))];
-            s.skip_lets = vec!["fd", "guard", "dst", "src"];
+            // the descriptor, the pointer guard and the raw pointer handed to the system call are opaque
+            s.skip = vec!["raw_fd . as_raw_fd ()", "guard . as_ptr () . cast :: < libc :: c_void > ()"];
+            s.skip_as = vec![("buf . ptr_guard_mut ()", "guard"), ("buf . ptr_guard ()", "guard")];
             s.fns = vec![ofn(sys, "syscall", "N -> N", Ty::ISize)];
             s.argsel = vec![(sys, vec![2])];
             s.effects = vec!["mark_dirty"];
